@@ -198,7 +198,7 @@ class RawMeshData:
                 # build only adjacency
                 self.cell_corners._adj = []
                 for iC,C in enumerate(self.cells):
-                    self.cell_corners._elem += [iC]*len(C)
+                    self.cell_corners._adj += [iC]*len(C)
             else:
                 # build both containers
                 self.cell_corners._elem = []
